@@ -35,8 +35,10 @@ def gen(rng, tier):
             yield _gen_lifespan(rng, i)
         elif r < 0.95:
             yield _gen_redirect(rng, i)
-        else:
+        elif r < 0.985:
             yield _gen_composed(rng, i)
+        else:
+            yield _gen_other_scope(rng, i)
 
 
 _IPS = ["10.0.0.1", "192.0.2.7", "203.0.113.9", "2001:db8::1", "198.51.100.23", "evil", "[2001:db8:cafe::17]:4711", "192.0.2.43:47011"]
@@ -149,12 +151,20 @@ def _gen_redirect(rng, i):
                        "secure": rng.random() < 0.3} for _ in range(rng.choice([0, 0, 1, 2]))]}
 
 
+def _gen_other_scope(rng, i):
+    """Scopes that are neither http nor websocket (lifespan, or a type of the future) go through every middleware untouched: "passes
+    ... through unchanged" - the wrapped application's start-up and shutdown depend on it."""
+    return {"family": "other-scope", "kind": "other-scope", "mw": rng.choice(["redirect", "redirect-host", "proxy-legacy", "proxy-modern"]),
+            "scope_type": rng.choice(["lifespan", "lifespan", "x-future"])}
+
+
 def _gen_composed(rng, i):
     """The documented deployment behind a TLS-terminating proxy: ProxyFixMiddleware(HTTPToHTTPSRedirectMiddleware(app)). The proxy says
     in X-Forwarded-Proto / Forwarded proto= which scheme the client used (http or https - also for a WebSocket opening, which is a GET
     to the proxy); the connection from the proxy is cleartext either way."""
     return {"family": "proxy+redirect", "kind": "composed", "mode": rng.choice(["legacy", "modern"]), "scope_type": rng.choice(["http", "websocket", "websocket"]),
-            "proto": rng.choice(["http", "https"]), "http_version": rng.choice(["1.1", "2"]), "ext": rng.random() < 0.8}
+            # (scheme names are case-insensitive, RFC 3986 3.1)
+            "proto": rng.choice(["http", "https", "http", "https", "HTTP", "Http", "HTTPS"]), "http_version": rng.choice(["1.1", "2"]), "ext": rng.random() < 0.8}
 
 
 # ---- execution ----------------------------------------------------------------------------------
@@ -239,9 +249,43 @@ def run_one(case, tally):
         findings += _lifespan(case, tally)
     elif kind == "composed":
         findings += _composed(case, tally)
+    elif kind == "other-scope":
+        findings += _other_scope(case, tally)
     else:
         findings += _redirect(case, tally)
     return findings, [None]
+
+
+def _other_scope(case, tally):
+    from hypercorn.middleware import HTTPToHTTPSRedirectMiddleware, ProxyFixMiddleware
+
+    called, sent = [], []
+
+    async def inner(scope, receive, send):
+        called.append(scope)
+        await send({"type": "lifespan.startup.complete"})
+
+    async def send(m):
+        sent.append(m)
+
+    async def receive():
+        return {"type": "lifespan.startup"}
+
+    mw = {"redirect": lambda: HTTPToHTTPSRedirectMiddleware(inner, None), "redirect-host": lambda: HTTPToHTTPSRedirectMiddleware(inner, "example.com"),
+          "proxy-legacy": lambda: ProxyFixMiddleware(inner, mode="legacy", trusted_hops=1),
+          "proxy-modern": lambda: ProxyFixMiddleware(inner, mode="modern", trusted_hops=1)}[case["mw"]]()
+    scope = {"type": case["scope_type"], "asgi": {"version": "3.0"}, "state": {}}
+    before = copy.deepcopy(scope)
+    tally.clause("other-scope")
+    try:
+        asyncio.run(mw(scope, receive, send))
+    except Exception as e:
+        return [{"clause": "other-scope", "sig": "C20.other-scope/%s/raised-%s" % (case["mw"].split("-")[0], type(e).__name__),
+                 "detail": "a %s scope through %s: %r instead of being passed to the application" % (case["scope_type"], case["mw"], e)}]
+    if len(called) != 1 or called[0] != before or scope != before or sent != [{"type": "lifespan.startup.complete"}]:
+        return [{"clause": "other-scope", "sig": "C20.other-scope/%s/not-passed-through" % case["mw"].split("-")[0],
+                 "detail": "a %s scope through %s: application called %d times, scope %r, messages %r" % (case["scope_type"], case["mw"], len(called), called[:1], sent)}]
+    return []
 
 
 def _composed(case, tally):
@@ -268,7 +312,7 @@ def _composed(case, tally):
     asyncio.run(mw(scope, None, send))
     tally.clause("composed")
     out = []
-    if case["proto"] == "https":
+    if case["proto"].lower() == "https":
         if len(called) != 1 or sent:
             out.append({"clause": "composed", "sig": "C20.composed/secure-not-passed-through",
                         "detail": "the client used %s towards the proxy: application called %d times, sent %r" % (case["proto"], len(called), sent)})
